@@ -72,6 +72,8 @@ class Guard:
             raise Discard("illcond:small_denominator")
         if getattr(I, "cond_margin", math.inf) < self.cond_margin:
             raise Discard("illcond:conditional_switch")
+        if getattr(I, "saw_nan", False):
+            raise Discard("illcond:undefined_intermediate")
         if getattr(I, "max_inter", 0.0) > self.max_abs:
             raise Discard("illcond:huge_intermediate")
         if getattr(I, "max_fn_arg", 0.0) > 1e4:
